@@ -25,7 +25,7 @@ RULE = ("every object class and collection trees (depth <= 3), with/without pare
 ASSUMPTIONS = ["scipy Rotation objects are immutable (sharing one is not shared mutable state)",
                "functions, classes, modules and the global defaults object are not object state"]
 
-MUTATIONS = ["move", "rotate", "position_inplace", "set_position", "set_orientation", "geometry", "excitation",
+MUTATIONS = ["trace_edit", "trace_kwargs_edit", "move", "rotate", "position_inplace", "set_position", "set_orientation", "geometry", "excitation",
              "style_label", "style_color", "style_nested", "style_update", "pixel", "child_move", "add_child",
              "remove_child", "child_style", "array_inplace"]
 
@@ -96,7 +96,7 @@ def gen_case(rng):
         from vfw.props.c10 import rand_tree
 
         spec = rand_tree(rng, int(rng.integers(0, 3)), int(rng.choice([1, 2])), [0])
-    style_mode = str(rng.choice(["untouched", "kwargs", "initialised", "label"]))
+    style_mode = str(rng.choice(["untouched", "kwargs", "initialised", "label", "model3d_trace"]))
     override = str(rng.choice(["none", "position", "style_label", "style_opacity", "geometry", "style_dict"]))
     return {"spec": spec, "style_mode": style_mode, "with_parent": bool(rng.random() < 0.4), "override": override,
             "mutation": str(rng.choice(MUTATIONS)), "direction": str(rng.choice(["orig", "copy"])),
@@ -115,6 +115,10 @@ def prepare(case):
         obj.style.path.line.width = 5
     elif case["style_mode"] == "label":
         obj.style.label = "thing_07"
+    elif case["style_mode"] == "model3d_trace":
+        # a user defined extra 3d model: containers (list of Trace3d with args / kwargs) inside the style
+        obj.style.model3d.add_trace(backend="generic", constructor="Scatter3d",
+                                    kwargs={"x": [0, 1], "y": [0, 0], "z": [0, 1], "mode": "lines"}, show=True)
     parent = None
     if case["with_parent"]:
         sib = magpy.Sensor()
@@ -197,6 +201,16 @@ def mutate(obj, name, seed):
         if not kids:
             return False
         kids[0].style.color = "pink"
+    elif name in ("trace_edit", "trace_kwargs_edit"):
+        data = obj.style.model3d.data
+        if not data:
+            return False
+        if name == "trace_edit":
+            data[0].show = not data[0].show
+            data[0].scale = 3.0
+        else:
+            data[0].kwargs["x"][0] = 99
+            data[0].kwargs["extra"] = "edited"
     elif name == "array_inplace":
         for a in ("_position", "_polarization", "_dimension", "_vertices", "_pixel", "_moment", "_faces"):
             v = getattr(obj, a, None)
